@@ -847,13 +847,13 @@ example : IsAffine (⟨0, 2, 0, 0, -2, 0, 0, 0, 0, 0, 2, 0, 5, 6, 7, 1⟩ : M44 
 example : (1 : ℚ) ≠ 0 ∧ (10 : ℚ) ≠ 0 ∧ (1 : ℚ) ≠ 10 ∧ (-2 : ℚ) ≠ 3 ∧ (-1 : ℚ) ≠ 2 ∧ (0 : ℚ) < 1 ∧ (1 : ℚ) < 10 ∧ (-2 : ℚ) < 3 ∧ (-1 : ℚ) < 2 := by
   norm_num
 /-- far-top-right corner (scaled by far/near) ↦ (1,1,1); near-bottom-left ↦ (−1,−1,−1) -/
-example : Gen.V3.mulM44 ⟨30, 20, -10⟩ (Gen.Frustum.projectionMatrix_persp (1 : ℚ) 10 (-2) 3 2 (-1)) = ⟨1, 1, 1⟩ ∧
+theorem witness_projectionMatrix_persp : Gen.V3.mulM44 ⟨30, 20, -10⟩ (Gen.Frustum.projectionMatrix_persp (1 : ℚ) 10 (-2) 3 2 (-1)) = ⟨1, 1, 1⟩ ∧
     Gen.V3.mulM44 ⟨-2, -1, -1⟩ (Gen.Frustum.projectionMatrix_persp (1 : ℚ) 10 (-2) 3 2 (-1)) = ⟨-1, -1, -1⟩ := by
   constructor <;> norm_num [Gen.V3.mulM44, Gen.Frustum.projectionMatrix_persp]
-example : Gen.V3.mulM44 ⟨3, 2, -10⟩ (Gen.Frustum.projectionMatrix_ortho (1 : ℚ) 10 (-2) 3 2 (-1)) = ⟨1, 1, 1⟩ := by
+theorem witness_projectionMatrix_ortho : Gen.V3.mulM44 ⟨3, 2, -10⟩ (Gen.Frustum.projectionMatrix_ortho (1 : ℚ) 10 (-2) 3 2 (-1)) = ⟨1, 1, 1⟩ := by
   norm_num [Gen.V3.mulM44, Gen.Frustum.projectionMatrix_ortho]
 /-- a point that projects inside the screen, and its depth -/
-example : Gen.Frustum.projectPointToScreen_persp (1 : ℚ) 10 (-2) 3 2 (-1) ⟨1, 1, -2⟩ = ⟨0, 0⟩ ∧
+theorem witness_projectPointToScreen_depth : Gen.Frustum.projectPointToScreen_persp (1 : ℚ) 10 (-2) 3 2 (-1) ⟨1, 1, -2⟩ = ⟨0, 0⟩ ∧
     Gen.Frustum.normalizedZToDepth_persp (1 : ℚ) 10 (-2) 3 2 (-1) (1 / 2) = -20 / 11 := by
   constructor <;> norm_num [Gen.Frustum.projectPointToScreen_persp, Gen.Frustum.normalizedZToDepth_persp]
 /-- the region and the interior are inhabited, and a point outside exists -/
@@ -863,7 +863,7 @@ example : interiorPersp (1 : ℚ) 10 (-2) 3 2 (-1) ⟨1, 1, -2⟩ ∧ regionPers
 /-- the length hypothesis is satisfiable: the extracted `Vec3::length` over ℝ with the real square root (all 65 paths) -/
 example (tmin : ℝ) : LenSpec (Gen.V3.length tmin Real.sqrt) := lenSpec_real tmin
 /-- … so e.g. the region theorem applies to the real frustum with these numbers -/
-example (p : V3 ℝ) : inAllPlanes (Gen.Frustum.planes_persp (2⁻¹ ^ 1022) Real.sqrt 1 10 (-2) 3 2 (-1)) p ↔ regionPersp 1 10 (-2) 3 2 (-1) p :=
+theorem witness_planes_persp_region_real (p : V3 ℝ) : inAllPlanes (Gen.Frustum.planes_persp (2⁻¹ ^ 1022) Real.sqrt 1 10 (-2) 3 2 (-1)) p ↔ regionPersp 1 10 (-2) 3 2 (-1) p :=
   planes_persp_region _ _ (lenSpec_real _) 1 10 (-2) 3 2 (-1) (by norm_num) (by norm_num) (by norm_num) p
 /-- sphere / box hypotheses: the unit ball and the unit box -/
 example : (0 : ℚ) ≤ (⟨⟨0, 0, -3⟩, 1⟩ : Sphere3 ℚ).radius ∧ sphereMem (⟨⟨0, 0, -3⟩, 1⟩ : Sphere3 ℚ) ⟨0, 1, -3⟩ ∧
